@@ -621,6 +621,13 @@ def call_pandas(it, fn, args, kwargs, node, fr):
             return f
         if isinstance(data, Arr) and getattr(data, "alloc", None) and names is None and cols is not None:
             pass
+        if isinstance(data, (Unk, Val)) and names is not None and not is_pyconst(data):
+            dt = to_term(data)
+            f = Frame({n: call("colof", dt, const(i)) for i, n in enumerate(names)}, list(names), name="new",
+                      space=getattr(data, "space", None) or Space("DataFrame", how="root"))
+            f.labels_positional = True
+            f.data_term = dt
+            return f
         u = opaque(it, "pandas.DataFrame", args, kwargs)
         return u
     if fn == "concat":
@@ -1082,22 +1089,20 @@ def arr_method(it, a, name, args, kwargs, node, fr):
     it.record("call", "ndarray." + name, [a] + args, dict(kwargs), node)
     if name in ("copy", "astype", "squeeze", "to_numpy", "view"):
         c = Arr(a.cols, a.ndim, a.space, a.single_row)
+        c.__dict__.update({k: v for k, v in a.__dict__.items() if k not in ("cols",)})
+        c.cols = list(a.cols)
         c.notes = list(a.notes) + ([("astype", to_term(args[0]))] if name == "astype" and args else [])
-        for at in ("from_frame", "colnames"):
-            if hasattr(a, at):
-                setattr(c, at, getattr(a, at))
         if name == "astype" and args and (isinstance(args[0], Ref) and args[0].name in ("builtins.int", "numpy.int32", "numpy.int64", "numpy.int_")):
             c.cols = [mk("int", x) for x in a.cols]
         return c
     if name == "reshape":
         shape = args[0] if len(args) == 1 else Seq(args, "tuple")
         c = Arr(a.cols, a.ndim, a.space, a.single_row)
+        c.__dict__.update({k: v for k, v in a.__dict__.items() if k not in ("cols",)})
+        c.cols = list(a.cols)
         c.notes = list(a.notes) + [("reshape", to_term(shape))]
         c.reshape = shape
         c.reshaped_from = a
-        for at in ("from_frame", "colnames"):
-            if hasattr(a, at):
-                setattr(c, at, getattr(a, at))
         it.record("reshape", "reshape", [a, shape], kwargs, node)
         if a.ndim == 1 and isinstance(shape, Seq) and len(shape.items) == 2 and is_pyconst(shape.items[0]) and pyval(shape.items[0]) == 1:
             c.ndim, c.single_row = 2, True
